@@ -72,6 +72,8 @@ pub enum Class {
     MainClosureCapturingRecordOfFnConstants,
     MainClosureCapturingArrayOfFnConstants,
     ArrayOfFnConstantsReturnedToGlobal,
+    WideVariantDropped,
+    WideTuplePayloadVariantDropped,
     // ---- known findings on the pinned tree (rate per dsp call in `rate()`)
     LocalCaptureBound,
     ReturnedBound,
@@ -115,7 +117,7 @@ pub enum Class {
     ArrayOfClosuresReturnedFromHelper,
 }
 
-pub const STABLE: [Class; 51] = [
+pub const STABLE: [Class; 53] = [
     Class::LocalNoCapture,
     Class::InplaceCapturing,
     Class::GlobalClosureCalled,
@@ -167,6 +169,8 @@ pub const STABLE: [Class; 51] = [
     Class::MainClosureCapturingRecordOfFnConstants,
     Class::MainClosureCapturingArrayOfFnConstants,
     Class::ArrayOfFnConstantsReturnedToGlobal,
+    Class::WideVariantDropped,
+    Class::WideTuplePayloadVariantDropped,
 ];
 /// Constructs that release a heap object twice (logged `invalid HeapIdx`) or use it after release
 /// (`BoxLoad: invalid heap index`) on the pinned tree. One scenario in twelve contains exactly one
@@ -308,6 +312,8 @@ impl Class {
             Class::ArrayOfFnConstantsReturnedToDsp => "array-of-function-constants-returned-from-a-helper-to-dsp",
             Class::LocalArrayOfFnConstants => "array-of-function-constants-built-in-dsp",
             Class::LocalTupleOfFnConstants => "tuple-of-function-constants-built-in-dsp",
+            Class::WideVariantDropped => "recursive-variant-with-seven-plain-words-before-the-boxed-member-dropped",
+            Class::WideTuplePayloadVariantDropped => "recursive-variant-with-two-four-word-tuples-before-the-boxed-member-dropped",
         }
     }
     /// (closures, heap objects) retained per dsp call on the pinned tree. For `SchedSelfNamed`
@@ -557,6 +563,16 @@ impl Inst {
             Class::LocalTupleOfFnConstants => (
                 format!("fn tri{i}(p){{\n  1.0 - p * 2.0\n}}\nfn saw{i}(p){{\n  p * 2.0 - 1.0\n}}\n"),
                 format!("  let sel{i} = (tri{i}, saw{i});\n  let r{i} = sel{i}.0({k}) + sel{i}.1(now);\n"),
+                format!("r{i}"),
+            ),
+            Class::WideVariantDropped => (
+                format!("type rec Ch{i} = End{i} | Link{i}(float, float, float, float, float, float, float, Ch{i})\n"),
+                format!("  let c{i} = Link{i}(now, 1.0, 2.0, 3.0, 4.0, 5.0, {k}, End{i});\n  let r{i} = now;\n"),
+                format!("r{i}"),
+            ),
+            Class::WideTuplePayloadVariantDropped => (
+                format!("type rec Cw{i} = Ew{i} | Lw{i}((float, float, float, float), (float, float, float, float), Cw{i})\n"),
+                format!("  let c{i} = Lw{i}((now, 1.0, 2.0, 3.0), (4.0, 5.0, {k}, 2.5), Ew{i});\n  let r{i} = now;\n"),
                 format!("r{i}"),
             ),
             Class::MacroPipePartial => (
